@@ -142,20 +142,33 @@ theorem C06_matched_offered {cfg s st j} (hidle : s.spc = .idle) (hl : lookup cf
     ∃ s', step cfg s (.read st) = some s' ∧ s'.hlog = s.hlog ∧ s'.spc = .offering j s.hist.length := by
   simp [step, hidle, hl]
 
-/-- the cancel window, made visible: a response is discarded only while the context registered
-for the matched waiter is done -/
-theorem C06_cancel_window {cfg s s'} (hs : step cfg s .abandon = some s') :
-    ∃ j k, s.spc = .offering j k ∧ ctxDone cfg s j = true ∧ s'.dropped = k :: s.dropped ∧
+/-- the cancel window (round E, after the repo fix): the serve loop gives up a hand-off only while
+the context registered for the matched waiter is done — and then the response, which nobody waits
+for any more, goes to the handler like every other unmatched response; nothing is discarded -/
+theorem C06_cancel_window_to_handler {cfg s s'} (hs : step cfg s .abandon = some s') :
+    ∃ j k, s.spc = .offering j k ∧ ctxDone cfg s j = true ∧ s'.hlog = k :: s.hlog ∧ s'.dropped = s.dropped ∧
       (s'.spc = .idle ∨ s'.spc = .dead) := by
   simp only [step] at hs
   split at hs
   · rename_i j k hj
     split at hs
     · simp at hs; subst hs
-      refine ⟨j, k, hj, by assumption, rfl, ?_⟩
+      refine ⟨j, k, hj, by assumption, rfl, rfl, ?_⟩
       simp only []; split <;> simp
     · simp at hs
   · simp at hs
+
+/-- no response is ever discarded: in every reachable state the list of dropped responses is empty
+(before the round E fix a response looked up in the window between the cancellation of its
+caller and the caller's deregistration was) -/
+theorem C06_nothing_dropped {cfg s} (hr : Reach cfg s) : s.dropped = [] := by
+  have stepEq : ∀ {s a s'}, step cfg s a = some s' → s'.dropped = s.dropped := by
+    intro s a s' hs
+    cases a <;> simp only [step] at hs <;> (try split at hs) <;> (try split at hs) <;> (try split at hs) <;>
+      (try simp at hs) <;> (try (obtain ⟨_, hs⟩ := hs)) <;> (try subst hs) <;> (try rfl) <;> simp_all
+  induction hr with
+  | init => rfl
+  | step _ hs ih => rw [stepEq hs]; exact ih
 
 /-! ### progress -/
 
@@ -419,10 +432,34 @@ theorem C06_receipts_handler_not_blocked_by_sender {ids s} (id : Nat) (hh : s.hp
     (rstep ids s (.receipt id)).isSome := by
   simp only [rstep, hh]; split <;> simp
 
-/-- the lock discipline that makes the model's handler step unconditional, regenerated from
-`receipts/receipts.go`: `SendMessageElement` makes no Session send while it holds `h.m` (the
-mutex `HandleMessage` needs for every `<received/>`) -/
-theorem C06_receipts_lock_discipline : Generated.C06.receiptsSendsWhileLocked = some false := by decide
+/-- the model's answer for one row of the probe `Generated.C06.receiptsWhileSending`: the sender has
+registered and is inside its transmission (`sending`); a receipt (row 0: for its id, row 1: for an
+unknown id) and a second unknown receipt arrive; then the transmission ends and the sender takes
+its receipt (row 0) or its context ends (row 1).  Both send APIs are one model (`SendMessage` is
+`SendMessageElement` behind a decoded start element). -/
+def rcptProbeRow (api which : Nat) : Nat × Nat × Bool × Bool :=
+  let ids : Nat → Nat := fun _ => 0
+  let first : List RAct := if which = 0 then [.receipt 0, .deliver] else [.receipt 5]
+  let s1 := rrun ids rinit ([.call 0] ++ first ++ [.receipt 9])
+  let handlerDone := match s1 with
+    | some s => s.hpc.isNone && s.unhandled.contains 9 && decide (s.wpc 0 = .sending)
+    | none => false
+  let rest : List RAct := if which = 0 then [.sendOk 0, .take 0] else [.sendOk 0, .cancel 0, .timeout 0]
+  let got := match s1.bind (fun s => rrun ids s rest) with
+    | some s => decide (s.wpc 0 = .done true)
+    | none => false
+  (api, which, handlerDone, got)
+
+/-- tie by a PROBE of the linked code (no source text; round E, replaces the go/ast fact
+`receiptsSendsWhileLocked`): with the sender parked inside its transmission the real handler
+finishes a receipt for the sender's id and one for an unknown id (both send APIs), and the sender
+then returns nil exactly when the receipt was its own — the whole table is what the model says.
+Holding the handler's mutex across the transmission, or registering only after it, changes a row. -/
+theorem C06_receipts_probe_agrees_with_model :
+    Generated.C06.receiptsWhileSending =
+      some [rcptProbeRow 0 0, rcptProbeRow 0 1, rcptProbeRow 1 0, rcptProbeRow 1 1] := by decide
+
+example : rcptProbeRow 1 0 = (1, 0, true, true) := by decide
 
 /-- one outcome per call -/
 theorem C06_receipts_outcome_stable {ids s a s'} {i : Nat} {ok : Bool}
